@@ -76,6 +76,10 @@ func exec(op string) vlib.Res {
 		if need(6) {
 			return execDoH(f)
 		}
+	case "deleg new", "deleg ref":
+		if f[1] == "new" || need(9) {
+			return execDeleg(f)
+		}
 	case "nslookup run":
 		if need(10) {
 			return execNsLookup(f)
@@ -712,6 +716,78 @@ func genNsLookup(r *vlib.R, local []string, emit func(string)) {
 		strings.ReplaceAll(listOrDash(extras), ",", ";"), host, vlib.B(r.Chance(1, 3)), sub))
 }
 
+// genDelegCase: a history of 2-6 referrals processed by ONE resolver (delegation cache and NS-address cache persist):
+// proper / self / sideways / mixed referrals, glue in and out of bailiwick, hosts re-used across referrals (so that
+// a later referral meets what an earlier one cached), own lookups failing or answering usable / loopback / local /
+// foreign addresses, the same zone referred twice (cached-delegation hit), levels one off.
+func genDelegCase(r *vlib.R, local []string, emit func(string)) int {
+	emit("deleg new")
+	n := 2 + r.Intn(5)
+	pool := []string{"ns1.sub.evil.test.", "ns2.sub.evil.test.", "ns.evil.test.", "ns1.victim.test.", "mail.victim.test.", "nsevil.test.", "ns.c.evil.test.", "ns.example.com."}
+	for i := 0; i < n; i++ {
+		auth := vlib.Pick(r, []string{"evil.test.", "evil.test.", "test.", "sub.evil.test.", "."})
+		owner := under(vlib.Pick(r, []string{"sub", "c", "s2", "sub"}), auth)
+		switch r.Intn(10) {
+		case 0:
+			owner = auth
+		case 1:
+			owner = "victim.test."
+		}
+		qname := under("x", owner)
+		if r.Chance(1, 10) {
+			qname = under("x", under("other", auth))
+		}
+		level := strings.Count(auth, ".")
+		if auth == "." {
+			level = 0
+		}
+		if r.Chance(1, 8) {
+			level += r.Intn(3)
+		}
+		var nsr, extras, subs []string
+		for j := 1 + r.Intn(3); j > 0; j-- {
+			h := vlib.Pick(r, pool)
+			if r.Chance(1, 3) {
+				h = under(vlib.Pick(r, []string{"ns1", "ns2"}), owner)
+			}
+			o := owner
+			if r.Chance(1, 12) {
+				o = "victim.test."
+			}
+			if r.Chance(1, 5) {
+				o = flipCase(r, o)
+			}
+			nsr = append(nsr, fmt.Sprintf("N/%s/1/%d/%s", o, vlib.Pick(r, []int{30, 300, 3600}), h))
+			if r.Chance(1, 2) {
+				extras = append(extras, fmt.Sprintf("%s/A/%s", h, genAddrHex(r, local)))
+			}
+			switch r.Intn(4) {
+			case 0:
+				subs = append(subs, h+"=F")
+			case 1, 2:
+				var rrs []string
+				for k := 1 + r.Intn(2); k > 0; k-- {
+					oo := h
+					if r.Chance(1, 5) {
+						oo = "www.victim.test."
+					}
+					rrs = append(rrs, fmt.Sprintf("%s/%s/%s", oo, vlib.Pick(r, []string{"A", "A", "AAAA"}), genAddrHex(r, local)))
+				}
+				subs = append(subs, h+"=R:"+strings.Join(rrs, "+"))
+			}
+		}
+		if r.Chance(1, 6) {
+			extras = append(extras, fmt.Sprintf("%s/A/%s", vlib.Pick(r, pool), genAddrHex(r, local)))
+		}
+		sub := "-"
+		if len(subs) > 0 {
+			sub = strings.Join(subs, "|")
+		}
+		emit(fmt.Sprintf("deleg ref %s %d %s 1 %s %s %s", auth, level, qname, strings.Join(nsr, ";"), strings.ReplaceAll(listOrDash(extras), ",", ";"), sub))
+	}
+	return n + 1
+}
+
 func genNsAddr(r *vlib.R, local []string, emit func(string)) {
 	n := r.Intn(6)
 	var rs []string
@@ -994,8 +1070,10 @@ func gen(r *vlib.R, n int, tier string, emit func(string)) {
 			default:
 				genNsLookup(r, local, emit)
 			}
-		case k < 23:
+		case k < 22:
 			genChase(r, emit)
+		case k < 23:
+			n -= genDelegCase(r, local, emit) - 1
 		default:
 			emit(fmt.Sprintf("clr run %s %s %d %d", vlib.B(r.Bool()), vlib.Pick(r, []string{"-", "-", "f", "t"}), r.Intn(3), r.Intn(3)))
 			emit("glue usable " + genAddrHex(r, local))
